@@ -8,6 +8,7 @@ site and compared with what is read back from the file.
 """
 from __future__ import annotations
 
+import copy
 import datetime
 import json
 import math
@@ -27,7 +28,9 @@ LEVEL = "exploration"
 RULE = ("(a) case = one save_json() call in a history of 1..60 saves with names from a small pool (repeats forced; "
         "empty, unicode, quote-bearing, very long names), gap matrices r x c (r,c>=1) with NaN, -0.0, +-inf, 1e300, "
         "subnormals, action arrays 2-D and 3-D with NaN padding, metadata with Path, date, tuple, None, nested containers "
-        "and callables. Oracles: new name => every earlier entry's parsed JSON unchanged and the new entry present; "
+        "and callables; 6 % of the saves carry unserialisable metadata (tuple-keyed or circular dict: the save may raise but "
+        "must leave the file as it was) and 4 % go through the full save() dispatcher (plots first, then data.json), 30 % of "
+        "the matrices hold negative gaps. All comparisons use copies taken BEFORE the save (no aliasing). Oracles: new name => every earlier entry's parsed JSON unchanged and the new entry present; "
         "existing name => file bytes unchanged and the file never opened for writing / renamed over (audit hook); "
         "read-back via Output.from_file and get_outputs_from_file: data bit-exact incl. NaN positions and signed zeros, "
         "shapes preserved, actions equal, metadata equal to an independent JSON stringification. (b) case = one command "
@@ -36,7 +39,8 @@ RULE = ("(a) case = one save_json() call in a history of 1..60 saves with names 
         "read back. Distinct = hash(history seed, index) / hash(command line); non-trivial = file already held >=1 entry.")
 SHARDS = {"quick": 4, "thorough": 16}
 BUDGET = {"quick": 45, "thorough": 360}
-REQUIRED = ["saves_checked", "repeated_name_saves", "read_backs", "command_runs", "audit_events_on_results_file"]
+REQUIRED = ["saves_checked", "repeated_name_saves", "read_backs", "command_runs", "audit_events_on_results_file", "failing_saves",
+            "saves_through_full_dispatcher"]
 
 _AUDIT = {"on": False, "path": None, "events": []}
 
@@ -160,15 +164,69 @@ def history_case(ctx, case) -> None:
             if rng.random() < 0.3:
                 actions.flat[rng.randrange(actions.size)] = float("nan")
             md = rand_metadata(rng)
-            out = Output(data, actions, Namespace(func=_some_function, **md))
+            if rng.random() < 0.3:
+                data = np.where(np.isnan(data) | np.isinf(data), data, -np.abs(data) * rng.choice([1.0, 1e-16]))   # negative gaps (rounding residues)
+            saved_data, saved_actions = data.copy(), actions.copy()
+            failing = rng.random() < 0.06
+            if failing:
+                # a save that cannot be serialised (tuple-keyed / circular metadata): it may raise, it must not damage the file
+                bad = {}
+                bad["self"] = bad
+                md_bad = dict(md, broken=rng.choice([{(1, 2): "tuple key"}, bad]))
+                out = Output(data, actions, Namespace(func=_some_function, **md_bad))
+            else:
+                out = Output(data, actions, Namespace(func=_some_function, **md))
             before = path.read_bytes() if path.exists() else None
             before_parsed = json.loads(before) if before is not None else {}
             _AUDIT["events"].clear()
+            use_dispatcher = (not failing) and rng.random() < 0.04
+            if use_dispatcher and (not name.strip() or len(name) > 40 or name != name.strip() or not all(ch.isalnum() for ch in name)):
+                use_dispatcher = False       # the plot savers build file names from the run name: keep those saves on save_json
+            if use_dispatcher:
+                # the plot / drawing savers have their own input assumptions (finite gaps, coalition ids): realistic matrices
+                data = np.array([[rng.uniform(-1e-15, 3.0) if rng.random() < 0.8 else -rng.random() * 1e-16 for _ in range(c)] for _ in range(r)])
+                actions = np.array([[float(rng.randint(3, 30)) for _ in range(c)] for _ in range(max(1, r - 1))])
+                if rng.random() < 0.3 and actions.size > 1:      # a run of at least one step has at least one real action id
+                    actions[-1, rng.randrange(c)] = float("nan")
+                    if np.all(np.isnan(actions)):
+                        actions[0, 0] = 3.0
+                saved_data, saved_actions = data.copy(), actions.copy()
+                out = Output(data, actions, Namespace(func=_some_function, **md))
             try:
-                save_json(path, name, out)
+                if use_dispatcher:
+                    ctx.count("saves_through_full_dispatcher")
+                    try:
+                        save_mod.save(d, name, out)
+                    except FileExistsError:
+                        if name not in model:
+                            raise
+                        ctx.count("dispatcher_repeated_name_raised_in_drawing_saver")     # outside C19; data.json is checked below
+                else:
+                    save_json(path, name, out)
+                if failing:
+                    ctx.count("unserialisable_saves_that_did_not_raise")
             except Exception as exc:
-                ctx.violation("save-raised", f"save_json raised {type(exc).__name__}: {exc} (save #{idx}, name {name!r})", case)
-                return
+                if not failing:
+                    ctx.violation("save-raised", f"save raised {type(exc).__name__}: {exc} (save #{idx}, name {name!r})", case)
+                    return
+            if failing:
+                ctx.count("failing_saves")
+                now = path.read_bytes() if path.exists() else None
+                c2 = dict(case)
+                c2["failed_at"] = idx
+                if now != before:
+                    ok = False
+                    try:
+                        ok = now is not None and {k: v for k, v in json.loads(now).items() if k != name} == before_parsed and name not in before_parsed
+                    except Exception:
+                        ok = False
+                    if not ok:
+                        ctx.violation("failed-save-damaged-file", f"save #{idx} (name {name!r}) raised while serialising and left data.json "
+                                      f"changed: {len(before or b'')} -> {len(now or b'')} bytes, earlier entries lost or file unparseable", c2)
+                        return
+                    model[name] = None       # a complete entry was written before the failure was noticed: tolerated, not modelled
+                ctx.case((case["history_seed"], idx, "failing"), before is not None)
+                continue
             events = list(_AUDIT["events"])
             ctx.count("audit_events_on_results_file", len(events))
             ctx.count("saves_checked")
@@ -196,7 +254,7 @@ def history_case(ctx, case) -> None:
                 if name not in parsed or set(parsed) != set(before_parsed) | {name}:
                     ctx.violation("new-entry-missing", f"save #{idx}: keys {sorted(parsed)[:8]} expected {sorted(set(before_parsed) | {name})[:8]}", c2)
                     return
-                model[name] = {"data": data, "actions": actions, "md": md}
+                model[name] = {"data": saved_data, "actions": saved_actions, "md": md}
             # read back everything saved so far through both readers
             try:
                 outs = get_outputs_from_file(path)
@@ -209,6 +267,8 @@ def history_case(ctx, case) -> None:
                 ctx.violation("read-back-keys-differ", f"get_outputs_from_file keys {sorted(outs)[:6]} vs saved {sorted(model)[:6]}", c2)
                 return
             for k, m in model.items():
+                if m is None:
+                    continue
                 for o in ([outs[k], one] if k == name else [outs[k]]):
                     if not same_array(o.data, m["data"]):
                         ctx.violation("gap-matrix-round-trip", f"entry {k!r}: data read back {np.asarray(o.data).tolist()} saved "
@@ -246,7 +306,8 @@ def command_case(ctx, case) -> None:
 
         def spy(*a, **k):
             out = real(*a, **k)
-            captured.setdefault(attr, []).append(out)
+            # deep copies: a later saver must not be able to alter what we compare against (aliasing)
+            captured.setdefault(attr, []).append(copy.deepcopy(out))
             return out
         setattr(mod, attr, spy)
         patches.append((mod, attr, real))
